@@ -234,6 +234,11 @@ class ByteInterval(Node):
             self.contents += b"\0" * (value - len(self.contents))
         elif value < len(self.contents):
             self.contents = self.contents[:value]
+        # As ByteInterval::setInitializedSize does in the C++ API: the
+        # interval grows with its initialized bytes, so that the stored bytes
+        # never exceed the size.
+        if value > self.size:
+            self.size = value
 
     @classmethod
     def _decode_protobuf(
